@@ -9,7 +9,22 @@ import random
 from harness import common, gen_docs, treewalk
 from harness import store_driver as sd
 
-PREAMBLE = 'From AB Require Import Prelude.\nFrom AB Require Import Desc Generated Tree TreeRun.\nFrom Coq Require Import ZArith String List.\nImport ListNotations.\nOpen Scope string_scope.\nOpen Scope Z_scope.'
+
+
+CONFORMS = """
+(* the hypothesis `conforms all_classes n` of the C05/C11/C20 theorems is evaluated on every dumped node *)
+Definition case_conforms (c : tcase) : bool :=
+  match c with
+  | TEq a b _ => conforms all_classes a && conforms all_classes b
+  | TBorder a _ _ => conforms all_classes a
+  | TCopy a cp _ => conforms all_classes a && conforms all_classes cp
+  | TReattach a _ after => conforms all_classes a && conforms all_classes after
+  end.
+Definition check_case_c (c : tcase) : bool := check_case c && case_conforms c.
+"""
+
+
+PREAMBLE = 'From AB Require Import Prelude.\nFrom AB Require Import Desc Generated Tree TreeDefs TreeRun.\nFrom Coq Require Import ZArith String List.\nImport ListNotations.\nOpen Scope string_scope.\nOpen Scope Z_scope.\n' + CONFORMS
 
 
 def q(s: str) -> str:
@@ -180,7 +195,7 @@ def run(ctx: common.Ctx, prop: str):
                 metas.append({'kind': 'deepcopy', 'text': text, 'path': p})
     if not cases:
         return
-    bad = ctx.run_coq_cases('tree', PREAMBLE, 'tcase', 'check_case', cases, chunk=25)
+    bad = ctx.run_coq_cases('tree', PREAMBLE, 'tcase', 'check_case_c', cases, chunk=25)
     ctx.count('traces_validated_against_impl', len(cases) - len(bad))
     for k in metas:
         ctx.dist('corr=' + k['kind'])
